@@ -170,7 +170,7 @@ func startStack(engine string, l Limits, anthropicMax int64, trust ...*TrustCfg)
 	var s *stack.Stack
 	var err error
 	for try := 0; try < 4; try++ {
-		opts := stack.Opts{Engine: engine, Balancer: "priority", ModelDiscovery: true,
+		opts := stack.Opts{Engine: engine, Balancer: "priority", ModelDiscovery: true, Vary: stack.VaryFor("c17", engine, l, anthropicMax, len(trust)),
 			EPs: []stack.EP{{Name: "A", Type: "openai", Priority: 100, Backend: b}}}
 		var tc *TrustCfg
 		if len(trust) > 0 && trust[0] != nil {
